@@ -438,20 +438,7 @@ def r4_conversions(ctx, F, table):
 
 
 def strip(e):
-    """Drop integer casts and lossless integer From conversions: widths are fixed by the layouts (R1)."""
-    if not isinstance(e, tuple) or not e:
-        return e
-    if e[0] == "CAST":
-        return strip(e[1])
-    if e[0] == "C" and len(e[3]) == 1 and (e[1].endswith("::from") or e[1].endswith("::into")) \
-            and ("From<" in e[1] or "Into<" in e[1] or e[1].startswith("std::convert::")) \
-            and e[2] and all(x in vf.MASK for x in e[2][:2]):
-        return strip(e[3][0])
-    if e[0] == "C" and not e[3] and e[1].endswith("::default"):
-        return ("KS", "default", "")
-    if e[0] in ("K", "KS", "P", "FN"):
-        return e
-    return tuple(strip(x) if isinstance(x, tuple) and x and isinstance(x[0], str) else x for x in e)
+    return vf.strip_casts(e)
 
 
 def flatten_struct(e):
